@@ -238,6 +238,8 @@ def faults(version):
         out.append(("drop", ph))
         out.append(("garbage", ph))
         out.append(("garbage-marker", ph))
+        if version == 3:
+            out.append(("garbage-enc", ph))      # well-framed 'encrypted response' whose ciphertext is not block aligned
         out.append(("close", ph))
         out.append(("late", ph))          # every honest answer of this exchange arrives only after the exchange gave up
         if version == 3:
@@ -249,7 +251,10 @@ def faults(version):
     return out
 
 
-def garbage(version, marker: bool) -> bytes:
+def garbage(version, marker) -> bytes:
+    if marker == "enc":
+        body = filler("c08/genc", 45 + 32)
+        return rc.v3_header(len(body) - 2, 0, rc.T_ENC_RESP) + body
     if not marker:
         return bytes(b if b not in (0x83, 0x5a) else 0x11 for b in filler("c08/garb", 40))
     if version == 2:
@@ -285,6 +290,9 @@ def exec_B(version, start, seq, cancel_spec=None, trace_op=None):
                 return
             if kind == "garbage-marker":
                 req.send(garbage(version, True))
+                return
+            if kind == "garbage-enc":
+                req.send(garbage(version, "enc"))
                 return
             if kind == "close":
                 req.close()
@@ -381,7 +389,8 @@ def cancel_points(version, start, seq, op):
 def run_B(st: Stats, version, start, part, nparts, triples=False):
     det = Determinism(first=3, every=101)
     fl = faults(version)
-    seqs = [[f] for f in fl] + [[f, g] for f in fl for g in fl]
+    # the empty sequence: the start state (e.g. connection closed by the peer while idle) followed directly by the final exchange
+    seqs = [[]] + [[f] for f in fl] + [[f, g] for f in fl for g in fl]
     if triples:
         seqs = [[f, g, h] for f in fl for g in fl for h in fl]
     idx = 0
@@ -438,7 +447,7 @@ def run_B(st: Stats, version, start, part, nparts, triples=False):
               sample=None if label != "drop-data+close-data" else {**case, "log": log})
 
     for seq in seqs:
-        one(seq, None, "+".join(f"{f[0]}-{f[1]}" if f[1] else f[0] for f in seq))
+        one(seq, None, "+".join(f"{f[0]}-{f[1]}" if f[1] else f[0] for f in seq) or "no-fault")
 
     # cancellation: single cancel at every interval of an honest exchange, cancel followed by each fault,
     # each fault followed by a cancel, cancel inside a faulty exchange
